@@ -1,6 +1,7 @@
 """contracts for the per-type message files — layouts from ITU-R M.1371-5 Annex 8 (bit offsets from 0, MSB first)"""
 from common import MSG_PROLOGUE, apply_bits_closure, apply_signed_closures, leaf_post
 from layout import gen_posts
+import layout
 
 HDR = [('message_type', 'raw', 0, 6, 'C04'), ('repeat_indicator', 'raw', 6, 2, 'C04'), ('mmsi', 'raw', 8, 30, 'C04')]
 BITS_HEAD = 'bits(move |data| -> IResult<_, _> {'
@@ -231,7 +232,7 @@ T9_EXTRA = {'C14': ['fld(o, 0, 6) == 9 ==> (r is Ok <==> n >= 168)'],
 
 def apply_sar(fc):
     std_message(fc, 't9', 'SARPositionReport', T9, T9_EXTRA)
-    fc.contract('parse_altitude', ensures=['r == opt_ne_u16(data as int, 4095)'], tags=['C11'])
+    fc.contract('parse_altitude', ensures=['r == opt_ne_u16(data as int, 4095)'], tags=['C11', 'C04'])
     fc.contract('parse_speed_over_ground_sar', ensures=['sog_sar_rel(data, r)'], tags=['C10', 'C11'])
 
 
@@ -535,6 +536,7 @@ FILES = {
 
 # ---------------------------------------------------------------------------------------------- dispatch table (C09)
 def _tags(fields, extra):
+    fields = layout.expand(fields)
     tags = []
     for f in fields:
         if f[4] not in tags:
